@@ -89,7 +89,7 @@ def _one(t):
         script(m, _)
         results.append(dict(rets))
         return None
-    ws = bpa.analyse(mod, script2, lambda: ([], regions()), max_worlds=32, max_steps=4000000, gcache=ctx.gcache)
+    ws = bpa.analyse(mod, script2, lambda: ([], regions()), max_worlds=32, max_steps=12000000, gcache=ctx.gcache)
     where = FC.fnloc(ctx, GET_DATA)
     # pair every finished world with the return values recorded during its execution
     done = [w for w in ws if w.status in ('ok',)]
@@ -191,7 +191,8 @@ def shapes(tier):
     for (mode, pl, code, n) in c07.shapes(tier):
         kind = V.DATATYPES[code][2]
         out.append((mode, pl, code, n, False))
-        if kind != 'scalar' and pl in (0, 13, 33, 128) and (n <= 40 or n in (128, 255, 256, 510, 511, 512, 32768, 65535)):
+        if kind != 'scalar' and pl in (0, 13, 33, 128) and (n <= 40 or n in (128, 255, 256, 510, 511, 512, 32768, 65535) or
+                                                                   n == 65535 // V.DATATYPES[code][1]):
             out.append((mode, pl, code, n, True))
     return out
 
@@ -226,6 +227,6 @@ def run(ctx, tier, res, tag=''):
 
 
 def main(tier, seed):
-    from ..ctx import Ctx
+    from ..ctx import run_all_configs
     res = Result('C08', tier, 'proof', seed)
-    return run(Ctx('le'), tier, res)
+    return run_all_configs(run, tier, res)
